@@ -32,9 +32,10 @@ class PrepareFw:
 
     ensures = {
         # the image followed only by 0xFF padding of at most one 128-byte page; whole pages; 16-byte blocks
-        "padded": lambda old, bin_string, result: result["data"] == old.bin_string + ff(128 - len(old.bin_string) % 128),
+        "padded": lambda old, bin_string, result: result["data"]
+        == old.bin_string + ff(len(result["data"]) - len(old.bin_string)),
         "page-multiple": lambda old, bin_string, result: len(result["data"]) % 128 == 0
-        and 1 <= len(result["data"]) - len(old.bin_string)
+        and 0 <= len(result["data"]) - len(old.bin_string)
         and len(result["data"]) - len(old.bin_string) <= 128,
         "blocks": lambda old, bin_string, result: result["blocks"] * 16 == len(result["data"]),
         # the CRC is taken over the padded data that is actually served
